@@ -1,4 +1,4 @@
-use rlverif::engine::{install_panic_hook, run_property, Opts, Tier};
+use rlverif::engine::{install_panic_hook, Opts, Tier};
 use rlverif::props;
 use std::path::PathBuf;
 
@@ -76,12 +76,9 @@ fn main() {
         threads,
         replay,
     };
-    let code = match id.as_str() {
-        "C04" => run_property(&props::c04::C04, &opts),
-        _ => {
-            eprintln!("unknown property id {}", id);
-            2
-        }
-    };
+    let code = props::dispatch(&id, &opts).unwrap_or_else(|| {
+        eprintln!("unknown property id {}", id);
+        2
+    });
     std::process::exit(code);
 }
